@@ -132,7 +132,11 @@ def run_case(case):
     w, fr = make_world(case)
     d = util.scratch("c02")
     scale = dict(u=(2.0 ** -9, 0.0), v=(2.0 ** -10, 0.0), temp=(2.0 ** -6, 8.0))  # u and v packed differently on purpose
-    f = w.write_file(d / "f.nc", [dict(t=S0, **fr), dict(t=S0 + 10 * DT, **fr)], storage=case["storage"], scale=scale)
+    # two files (the second one packed differently): the per-file scaling attributes must be honoured
+    f = w.write_file(d / "f_0.nc", [dict(t=S0, **fr)], storage=case["storage"], scale=scale)
+    scale_b = dict(u=(2.0 ** -11, 0.0), v=(2.0 ** -12, 0.0), temp=(2.0 ** -7, 2.0))
+    w.write_file(d / "f_1.nc", [dict(t=S0 + 10 * DT, **fr)], storage=case["storage"], scale=scale_b)
+    pattern = str(d / "f_*.nc")
     viols, n, nt = [], 0, 0
     outcomes = set()
 
@@ -170,13 +174,23 @@ def run_case(case):
         st.append(X=X, Y=Y, Z=Z, temp=0.0)
         tk = TimeKeeper(start=world.iso(S0), stop=world.iso(S0 + 5 * DT), dt=DT)
         try:
-            force = Forcing(dict(time=tk, grid=grid, state=st), f, extra_forcing=["temp"])
+            force = Forcing(dict(time=tk, grid=grid, state=st), pattern, extra_forcing=["temp"])
             tk.update()
             force.update()
             u1, v1 = np.array(force.variables["u"]), np.array(force.variables["v"])
             u2, v2 = force.velocity(st.X, st.Y, st.Z)
             u3, v3 = force.velocity(st.X, st.Y, st.Z, fractional_step=0.5)
             t1, t2 = np.array(force.variables["temp"]), np.array(st["temp"])
+            phase2 = None
+            if sg is None:
+                # second step: every particle is moved to the neighbouring lattice position (depths unchanged), as the tracker would
+                X2 = np.where(X + 0.25 < exp_lim[1] - 1.5, X + 0.25, X - 0.5)
+                Y2 = np.where(Y + 0.25 < exp_lim[3] - 1.5, Y + 0.25, Y - 0.5)
+                st["X"], st["Y"] = X2, Y2
+                tk.update()
+                force.update()
+                pu, pv = force.velocity(st.X, st.Y, st.Z)
+                phase2 = (X2, Y2, np.array(force.variables["u"]), np.array(force.variables["v"]), np.array(pu), np.array(pv), np.array(force.variables["temp"]))
             force.close()
         except BaseException as e:
             bad("forcing:exception", repr(e), sg)
@@ -206,6 +220,17 @@ def run_case(case):
                     ev = -0.25 * kk + 0.0625 * x + 0.5 * y
                 if len(refinterp.own_cells(x, y)) == 1 and (abs(u1[k] - eu) > 1e-12 or abs(v1[k] - ev) > 1e-12):
                     bad("velocity:not-exact-on-linear", f"at {p}: ({u1[k]},{v1[k]}) expected ({eu},{ev})", sg)
+        if phase2 is not None:
+            X2, Y2, a1, b1, a2, b2, tt = phase2
+            for k in range(len(P)):
+                p2 = (float(X2[k]), float(Y2[k]), P[k][2])
+                n += 1
+                uvc, sc, _ = ref(p2)
+                for name, (gu, gv) in (("variables", (a1[k], b1[k])), ("velocity", (a2[k], b2[k]))):
+                    if not any(abs(gu - eu) <= 1e-12 * max(1, abs(eu)) and abs(gv - ev) <= 1e-12 * max(1, abs(ev)) for eu, ev in uvc):
+                        bad("second-step:velocity:" + name, f"after moving the particle to {p2} (depth unchanged): ({gu}, {gv}) expected one of {uvc}", sg)
+                if not any(abs(tt[k] - e) <= 1e-12 * abs(e) for e in sc):
+                    bad("second-step:scalar", f"after moving the particle to {p2}: temp={tt[k]} expected one of {sc}", sg)
     return util.result(evals=n, nontrivial=nt, viol=viols, outcomes=sorted(outcomes), states=n, transitions=n,
                        sample=dict(case, subgrids=len(sgs), example_position=[2.75, 2.5, 12.0]))
 
